@@ -46,9 +46,11 @@ package bw6761
 //@ ensures[short] len(buf) < SizeOfG1AffineCompressed ==> !isnil(result1) && result0 == 0
 //@ ensures[reject-count] !isnil(result1) ==> result0 == 0
 //@ ensures[infinity] isnil(result1) && md == mCompressedInfinity ==> zeroed && iszero(p.X) && iszero(p.Y) && result0 == SizeOfG1AffineCompressed
+//@ ensures[infinity-bytes] isnil(result1) && md == mCompressedInfinity ==> forall(j, 1, SizeOfG1AffineCompressed, buf[j] == 0)
 //@ ensures[valid-mask] isnil(result1) ==> md == mUncompressed || md == mUncompressedInfinity || md == mCompressedSmallest || md == mCompressedLargest || md == mCompressedInfinity
 //@ ensures[short-raw] (md == mUncompressed || md == mUncompressedInfinity) && len(buf) < SizeOfG1AffineUncompressed ==> !isnil(result1) && result0 == 0
 //@ ensures[infinity-raw] isnil(result1) && md == mUncompressedInfinity ==> zeroed && iszero(p.X) && iszero(p.Y) && result0 == SizeOfG1AffineUncompressed
+//@ ensures[infinity-raw-bytes] isnil(result1) && md == mUncompressedInfinity ==> forall(j, 1, SizeOfG1AffineUncompressed, buf[j] == 0)
 //@ ensures[raw-canonical] isnil(result1) && md == mUncompressed ==> canonX && canonY && result0 == SizeOfG1AffineUncompressed
 //@ ensures[raw-on-curve] isnil(result1) && md == mUncompressed ==> (subGroupCheck && insub) || (!subGroupCheck && oncurve)
 //@ ensures[compressed-canonical] isnil(result1) && (md == mCompressedSmallest || md == mCompressedLargest) ==> canonX && result0 == SizeOfG1AffineCompressed
